@@ -2,6 +2,7 @@ package harness
 
 import (
 	"fmt"
+	"time"
 	"testing"
 
 	"verif/sim/simrt"
@@ -28,6 +29,10 @@ func runC03(t *testing.T, c simrt.Chooser, o Opts) *Out {
 		// a write to stdout fails now and then (EAGAIN on a full non-blocking pipe): exactly the
 		// records of the failed writes may be missing, nothing else
 		sc.World.OutErrEvery = 2 + p.n("stdouterrevery", 9)
+	}
+	if sc.exitDelay >= 300*time.Millisecond && len(sc.Spec.Ports) <= 200 && p.pct("readerrs", 15) {
+		// a flapping link: 8..30 unknown read errors while replies keep arriving
+		injectReadErrors(sc, 8+p.n("nreaderrs", 23))
 	}
 	out := &Out{Scenario: sc, Stats: map[string]int{}}
 	cr := runPacketScenario(t, c, o, sc)
